@@ -164,6 +164,7 @@ fn trunc(case: &Case, data: &[u8], ctx: &mut Ctx) -> Option<Violation> {
     // told) are not part of the stream as this reader sees it: cutting there is no truncation.
     let needed = full.consumed.min(stream.len());
     ctx.bytes("stream", &stream);
+    structure_reach(ctx, &case.fmt, &stream);
     let comp = reader_component(case);
     let bounds = if case.fmt == "lzip" { lzip_member_bounds(&stream) } else { vec![] };
     let only = case.knob_or("only", -1);
